@@ -119,7 +119,10 @@ func (c *Client) Ping(quit <-chan struct{}) error {
 	// submit transaction
 	if err := c.write(quit, packetPINGREQ); err != nil {
 		select {
-		case <-c.pingAck: // unlock
+		case ack := <-c.pingAck: // unlock
+			if ack != done {
+				c.restorePingAck(ack)
+			}
 		default: // picked up by unrelated pong
 		}
 		verifYield("ping.clean")
@@ -136,13 +139,29 @@ func (c *Client) Ping(quit <-chan struct{}) error {
 	case <-quit:
 		verifYield("ping.quit")
 		select {
-		case <-c.pingAck: // unlock
+		case ack := <-c.pingAck: // unlock
 			verifYield("ping.unslot")
+			if ack != done {
+				c.restorePingAck(ack)
+				return <-done
+			}
 			return fmt.Errorf("%w; PING not confirmed", ErrAbandoned)
 		default: // picked up in mean time
 			verifYield("ping.late")
 			return <-done
 		}
+	}
+}
+
+// RestorePingAck undoes the removal of a callback from another Ping. The slot
+// may have been released (on connection loss) and reused in the mean time.
+func (c *Client) restorePingAck(ack chan<- error) {
+	select {
+	case c.pingAck <- ack:
+		break // OK
+	default:
+		// slot taken already; won't block due buffer
+		ack <- fmt.Errorf("%w; PING not confirmed", ErrBreak)
 	}
 }
 
